@@ -23,7 +23,7 @@ ASSUMPTIONS = [
     "'tree left as it was' = every field, child order, object identity and the registry equal the pre-snapshot",
     "validity before/after is decided by the real validate.tree (judged separately by C01-C05)",
 ]
-REQUIRED = ["trees_with_id_like_qualified_attributes", "expansions_adding_more_than_100000_nodes", "trees_naming_identifier_systems", "expansions_of_a_part_of_a_bigger_document", "ids_used_3_times", "expansions_beside_a_second_load_of_the_same_model", "references_in_the_other_unicode_composition", "ids_differing_in_unicode_composition_only", "second_round_after_source_was_replaced", "second_round_after_source_was_removed", "expansions", "references_expanded", "valid_before_and_after", "reference_followed_by_siblings", "fault_dangling", "fault_duplicate",
+REQUIRED = ["trees_with_an_empty_string_id", "referenced_elements_with_children_kept_in_a_tuple", "trees_with_id_like_qualified_attributes", "expansions_adding_more_than_100000_nodes", "trees_naming_identifier_systems", "expansions_of_a_part_of_a_bigger_document", "ids_used_3_times", "expansions_beside_a_second_load_of_the_same_model", "references_in_the_other_unicode_composition", "ids_differing_in_unicode_composition_only", "second_round_after_source_was_replaced", "second_round_after_source_was_removed", "expansions", "references_expanded", "valid_before_and_after", "reference_followed_by_siblings", "fault_dangling", "fault_duplicate",
             "source_after_reference_in_document_order", "source_before_reference_in_document_order", "copies_checked_for_aliasing"]
 EXHAUSTIVE = {"quick": False, "thorough": False}
 
@@ -424,6 +424,21 @@ def one(ctx, gen, i):
             x.add_extras(k, v)
         ctx.count("trees_with_id_like_qualified_attributes")
         log.append("id-like qualified attributes")
+    if i % 9 == 7:
+        # an id left unfilled by a template (the empty string) is an id: it can be referenced, and two of them are a duplicate
+        src = pairs[0][1]
+        for r_, s_ in pairs:
+            if s_ is src:
+                r_.find_child("references").content = ""
+        src.add_attribute("id", "")
+        ctx.count("trees_with_an_empty_string_id")
+        log.append("empty-string id")
+    if i % 9 == 8:
+        # the referenced element's children are kept in a tuple (assigned through the public setter)
+        for r_, s_ in pairs[:2]:
+            s_.children = tuple(s_.children)
+        ctx.count("referenced_elements_with_children_kept_in_a_tuple")
+        log.append("tuple children")
     outside = None
     mode = rng.random()
     if i % 4 == 2 and mode >= 0.55 or i % 8 == 2:
@@ -445,7 +460,8 @@ def one(ctx, gen, i):
         # a value that names no id: absent, empty, or a near miss of a real one (padded, other case, cut short, extended)
         taken = {n.attributes["id"] for n in treegen.all_nodes(root) if "id" in n.attributes}
         pairs[j][0].find_child("references").content = rng.choice([v for v in ["no-such-id", "", None, None, "SRC-1", real + " ", " " + real, real + "\n",
-                                                                               "\n    " + real + "\n  ", real.upper(), real[:-1], real + "0"]
+                                                                               "\n    " + real + "\n  ", real.upper(), real[:-1], real + "0",
+                                                                               "#" + real, real + "#", "./" + real, "id:" + real, "urn:" + real, "%s" % real.replace("-", "%2D")]
                                                                    if v not in taken])
         judge_fault(ctx, root, "dangling", log + [f"dangling@{j}/{len(pairs)}"],
                     {"tree": snapshot.to_plain(root), "kind": "dangling", "how": log, "outside": outside} if outside else None)
@@ -516,6 +532,10 @@ def replay(ctx, witness):
         ctx.distinct(2)
         return
     root = snapshot.from_plain(Node, witness["tree"])
+    if "tuple children" in (witness.get("how") or []):
+        for x in snapshot.walk(root):
+            if "id" in x.attributes and x.children:
+                x.children = tuple(x.children)
     if witness.get("outside"):
         in_document(root, witness["outside"])
     if witness.get("second_round"):
